@@ -11,19 +11,30 @@ PROP = "C15"
 STATE_VARS = ["height", "stored", "rs", "db"]
 FAITHFUL = ["ContainerOK", "TopIsHeight", "StorageShape", "RestartResumes", "NoRerun", "NoRerunCtl", "HeightMonotone",
             "HighestMonotone", "HistMonotoneExceptRerun", "RestartCoversLearned", "HistBehindHighest"]
+# *_rfaults_* configs (failing / empty / undecodable storage READS): the pinned code does not satisfy NoRerun and
+# HighestMonotone there (findings below); what is checked exhaustively is that those are the ONLY ways they fail
+FAITHFUL_RF = ["ContainerOK", "TopIsHeight", "StorageShape", "RestartResumes", "NoRerunExceptFailedLoad", "NoRerunCtl",
+               "HeightMonotone", "HighestMonotoneExceptFailedLoad", "HistMonotoneExceptRerun", "RestartCoversLearned",
+               "HistBehindHighest"]
 
 
 def _tier(tier):
     if tier == "quick":
         # (cfg, stop_after seconds, workers); *_faults_*: failing storage writes (MaxWriteFaults > 0)
         return dict(mc=[("Controller_quick_light.cfg", 45, 4), ("Controller_quick_full.cfg", 45, 4),
-                        ("Controller_quick_faults_light.cfg", 45, 2), ("Controller_quick_faults_full.cfg", 45, 2)],
-                    sims=[("Controller_sim_light.cfg", 170, 14), ("Controller_sim_full.cfg", 170, 14)],
-                    record_runs=100)
+                        ("Controller_quick_faults_light.cfg", 45, 2), ("Controller_quick_faults_full.cfg", 45, 2),
+                        ("Controller_quick_rfaults_light.cfg", 45, 2), ("Controller_quick_rfaults_full.cfg", 45, 2)],
+                    sims=[("Controller_sim_light.cfg", 170, 14), ("Controller_sim_full.cfg", 170, 14),
+                          ("Controller_sim_rfaults_light.cfg", 100, 14), ("Controller_sim_rfaults_full.cfg", 100, 14)],
+                    covers=[("Controller_cover_rfaults_light.cfg", 300, 150)] if os.environ.get("VERIF_C15_COVER") else [],
+                    record_runs=100)   # the graph dump costs minutes on a loaded machine: thorough tier (or VERIF_C15_COVER=1)
     return dict(mc=[("Controller_thorough_light.cfg", 1800, 4), ("Controller_thorough_full.cfg", 1800, 4),
                     ("Controller_thorough_full3.cfg", 1800, 4),
-                    ("Controller_thorough_faults_light.cfg", 1800, 3), ("Controller_thorough_faults_full.cfg", 1800, 3)],
-                sims=[("Controller_sim_light.cfg", 1500, 18), ("Controller_sim_full.cfg", 1500, 18)],
+                    ("Controller_thorough_faults_light.cfg", 1800, 3), ("Controller_thorough_faults_full.cfg", 1800, 3),
+                    ("Controller_thorough_rfaults_light.cfg", 1800, 3), ("Controller_thorough_rfaults_full.cfg", 1800, 3)],
+                sims=[("Controller_sim_light.cfg", 1500, 18), ("Controller_sim_full.cfg", 1500, 18),
+                      ("Controller_sim_rfaults_light.cfg", 1000, 18), ("Controller_sim_rfaults_full.cfg", 1000, 18)],
+                covers=[("Controller_cover_rfaults_light.cfg", 100000, 4000), ("Controller_cover_rfaults_full.cfg", 100000, 4000)],
                 record_runs=1500)
 
 
@@ -51,6 +62,20 @@ ATTACKS = [  # (cfg, named deviation, property whose counterexample is the attac
 FINDINGS = [
     ("Controller_finding_hist.cfg", "historical record replaced by fewer signers after a re-run (HistMonotoneNZ)"),
     ("Controller_finding_hist0.cfg", "historical record replaced by fewer signers after a re-run of height 0 (HistMonotone)"),
+    # failing storage reads (suspected defects; signatures *-after-failed-highest-read / -after-failed-instance-read)
+    ("Controller_finding_readfail.cfg", "Validator.Start logs the error of LoadHighestInstance and starts the validator on a fresh "
+                                        "controller: a stored decided height is run again (NoRerunAbove0)"),
+    ("Controller_finding_readfail_garbage.cfg", "the same with a highest record that does not decode (RestartRefuses, full node)"),
+    ("Controller_finding_readfail_highest.cfg", "... and every decision the blindly started validator sees is saved as the highest: "
+                                                "the stored highest instance is replaced by a lower height (HighestMonotone)"),
+    ("Controller_finding_readinst.cfg", "InstanceForHeight swallows the error of GetInstance: UponDecided saves the message's smaller "
+                                        "certificate over the stored historical record (HistMonotoneStrictReads, full node)"),
+]
+# the proposed repair in the model (ReadFix = TRUE: Start refuses after a failed load, UponDecided returns the lookup error):
+# the STRICT properties must hold; a counterexample here is a model error
+REPAIR = [
+    ("Controller_fix_readfix_light.cfg", "ReadFix, light node: NoRerun, HighestMonotone, RestartRefuses strict"),
+    ("Controller_fix_readfix_full.cfg", "ReadFix, full node: + HistMonotoneStrictReads"),
 ]
 # observations: stronger readings that the code does not implement; replayed, counted, never a verdict
 OBSERVE = [
@@ -63,6 +88,38 @@ def _small(cfg):
     return cfg, vlib.tlc("Controller", cfg, workers=2, timeout=900)
 
 
+def _has_read_fault(beh):
+    return any(st["act"].get("brd", "ok") not in ("ok", "") or st["act"].get("rd", "ok") not in ("ok", "")
+               for st in beh["steps"])
+
+
+def _cover(cfg, seed, max_leaves, max_extra):
+    """Edge cover of a small state graph WITH read faults (act is part of the state: no VIEW): shortest path to every
+    BFS-tree leaf plus a seeded sample of the other edges; only behaviours that contain a read fault are kept (the rest
+    of the graph is the fault-free spec), capped by a seeded sample in the quick tier."""
+    import random
+    r, nodes, edges, inits = vlib.tlc_dump_graph("Controller", cfg, timeout=1500, workers=2)
+    if r.violation or r.error or not nodes:
+        raise vlib.MachineryError("cover config %s: %s %s (%d nodes)" % (cfg, r.violation, r.error, len(nodes)))
+    behs, stats = vlib.graph_behaviours(nodes, edges, inits, seed, max_extra=min(100000, max_extra * 8),
+                                        state_vars=STATE_VARS, kind="cover")
+    tag = cfg.replace("Controller_cover_", "").replace(".cfg", "")
+    leaves = [b for b in behs if "-leaf-" in b["id"] and _has_read_fault(b)]
+    extra = [b for b in behs if "-edge-" in b["id"] and _has_read_fault(b)]
+    stats["read_fault_leaves"], stats["read_fault_edges"] = len(leaves), len(extra)
+    rng = random.Random(seed)
+    rng.shuffle(leaves)
+    leaves, extra = leaves[:max_leaves], extra[:max_extra]   # graph_behaviours already shuffled the extra edges
+    out = leaves + extra
+    for b in out:
+        b["id"] = b["id"].replace("cover-", "cover-%s-" % tag, 1)
+    stats["replayed_leaves"], stats["replayed_edges"] = len(leaves), len(extra)
+    stats["complete"] = (stats["replayed_leaves"] == stats["read_fault_leaves"] and
+                         stats["extra_edges"] == stats["non_tree_edges_total"] and
+                         stats["replayed_edges"] == stats["read_fault_edges"])
+    return cfg, out, stats, r
+
+
 def run(tier, seed):
     t0 = time.time()
     T = _tier(tier)
@@ -73,12 +130,13 @@ def run(tier, seed):
     os.makedirs(wd, exist_ok=True)
 
     # TLC runs are independent: exhaustive configs, simulations and the small attack/finding/observe configs in parallel
-    ex = ThreadPoolExecutor(max_workers=10)
+    ex = ThreadPoolExecutor(max_workers=12)
     f_rec = [ex.submit(_record_and_validate, binc, wd, full, seed, T["record_runs"]) for full in (False, True)]
     f_mc = [(cfg, ex.submit(vlib.tlc, "Controller", cfg, None, wk, sa + 600, sa)) for cfg, sa, wk in T["mc"]]
     f_sim = [(cfg, ex.submit(vlib.tlc_simulate, "Controller", cfg, num, depth, seed, None, 1800, None,
                              ["act"] + STATE_VARS)) for cfg, num, depth in T["sims"]]
-    f_small = [ex.submit(_small, cfg) for cfg, _ in ATTACKS + FINDINGS + OBSERVE]
+    f_cover = [ex.submit(_cover, cfg, seed, ml, me) for cfg, ml, me in T["covers"]]
+    f_small = [ex.submit(_small, cfg) for cfg, _ in ATTACKS + FINDINGS + OBSERVE + REPAIR]
 
     # 1. exhaustive model checking of the faithful spec
     states = transitions = 0
@@ -89,7 +147,8 @@ def run(tier, seed):
             raise vlib.MachineryError("faithful Controller spec violates %s in %s (model error, not a verdict):\n%s" %
                                       (r.violation, cfg, json.dumps(vlib.tlaval.plain([s.get("act") for s in r.trace]))))
         cov["configs"].append({"cfg": cfg, "distinct": r.distinct, "generated": r.generated, "depth": r.depth,
-                               "exhaustive": r.finished, "wall_s": round(r.wall, 1), "properties": FAITHFUL})
+                               "exhaustive": r.finished, "wall_s": round(r.wall, 1),
+                               "properties": FAITHFUL_RF if "_rfaults_" in cfg else FAITHFUL})
         states += r.distinct
         transitions += r.generated
         exhaustive = exhaustive and r.finished
@@ -107,8 +166,25 @@ def run(tier, seed):
             behs.append(vlib.trace_behaviour(b, "%s-%d" % (tag, k), "sim", STATE_VARS))
         transitions += rs.generated
         cov.setdefault("sim_behaviours", {})[cfg] = len(sb)
+    # ... edge covers of the small state graphs with read faults ...
+    for fut in f_cover:
+        cfg, cb, stats, rc_ = fut.result()
+        behs.extend(cb)
+        transitions += rc_.generated
+        cov.setdefault("cover_graphs", {})[cfg] = stats
+        log("[C15] cover %s: %d nodes / %d edges, %d+%d behaviours with a read fault replayed (complete=%s)" %
+            (cfg, stats["nodes"], stats["edges"], stats["replayed_leaves"], stats["replayed_edges"], stats["complete"]))
     # ... attack traces of the weakened specs, finding and observation traces of the faithful spec
     small = dict(f.result() for f in f_small)
+    for cfg, desc in REPAIR:
+        r = small[cfg]
+        if r.error or r.violation or not r.finished:
+            raise vlib.MachineryError("repair-model config %s: violation=%s finished=%s %s (the modelled repair no longer "
+                                      "restores the strict properties: model error, not a verdict)" %
+                                      (cfg, r.violation, r.finished, r.error))
+        cov.setdefault("repair_model", []).append({"cfg": cfg, "what": desc, "distinct": r.distinct, "holds": True})
+        states += r.distinct
+        transitions += r.generated
     special = []
     for group, prefix in ((ATTACKS, "attack"), (FINDINGS, "finding"), (OBSERVE, "observe")):
         for cfg, desc in group:
@@ -186,7 +262,8 @@ def run(tier, seed):
         "evaluations": res["steps"] + rec_steps,
         "distinct_nontrivial": _distinct_nontrivial(behs + special) + rec_distinct,
         "rule": "behaviours = seeded TLC simulations of the faithful spec (light and full node, incl. failing storage "
-                "writes) + attack traces of the "
+                "writes and failing / empty / undecodable storage reads) + edge cover (sampled in the quick tier) of the "
+                "small state graphs with a read fault + attack traces of the "
                 "weakened specs + finding/observation traces + seeded executions generated on the real code and accepted "
                 "by ControllerTrace.tla; non-trivial = contains a decided certificate, a local decision or a restart",
         "exhaustive": bool(exhaustive),
@@ -198,9 +275,16 @@ def run(tier, seed):
         "a crash happens between two calls of the runner or inside a call right before any of its database writes "
         "(a single database Set is atomic; the two Sets of SaveHighestAndHistoricalInstance are separate crash points)",
         "storage-write failures: any database Set of a save may return an error and write nothing (at most MaxWriteFaults "
-        "per behaviour, not combined with a crash inside the same call); reads do not fail. What was learned in memory "
+        "per behaviour, not combined with a crash inside the same call). What was learned in memory "
         "counts until the next restart, after a restart only what is stored counts: a decision whose write failed may "
         "legitimately be forgotten by a restart",
+        "storage-read faults (at most MaxReadFaults per behaviour): the one Get of Validator.Start -> LoadHighestInstance and the one "
+        "Get of InstanceForHeight (full node, height not in memory) may return an error (in the shape of the real badger "
+        "wrapper: found=true + error), a record that does not decode (torn JSON), or not-found although the record exists. "
+        "An error / undecodable record is something the code is TOLD: accepting a duty at or below the durably stored highest "
+        "height afterwards is a re-run (refusing to start or retrying would be fine), overwriting a stored record by a lower "
+        "height / fewer signers afterwards breaks the last sentence of the property. A database that answers not-found for an "
+        "existing record is indistinguishable from a first start: its consequences are counted as observations, never asserted",
         "kv.NewInMemory stands in for the on-disk database; BLS verification is trusted",
         "the height-0 special case of ShouldProcessDuty (c.Height = 0 means 'nothing yet') is excluded explicitly from NoRerun",
     ], len(verdict.violations))
@@ -231,7 +315,7 @@ def _distinct_nontrivial_trace(path):
                 seen.add(json.dumps(cur))
             cur = []
             continue
-        cur.append([e["event"]] + [e.get(k) for k in ("slot", "h", "r", "n", "ok", "fail")])
+        cur.append([e["event"]] + [e.get(k) for k in ("slot", "h", "r", "n", "ok", "fail", "rfail")])
     if any(x[0] in NONTRIVIAL for x in cur):
         seen.add(json.dumps(cur))
     return len(seen)
@@ -248,7 +332,7 @@ def _record_and_validate(binc, wd, full, seed, runs):
     res2 = json.load(open(outr))
     cfg = "ControllerTrace_%s.cfg" % tag
     accepted, consumed, nlines, rt = vlib.tlc_validate_trace("ControllerTrace", cfg, tr, name="ControllerTrace-" + tag, timeout=2400)
-    selftest = None if full else _selftest(tr, cfg, wd)
+    selftest = None if full else "; ".join(x for x in (_selftest(tr, cfg, wd), _selftest_read(tr, cfg, wd)) if x)
     rpath = "record:seed=%d:full=%s:runs=%d" % (sd, "true" if full else "false", runs)
     return full, tr, res2, rpath, accepted, consumed, nlines, rt.generated, selftest
 
@@ -284,6 +368,29 @@ def _selftest(tr, cfg, wd):
     if accepted:
         raise vlib.MachineryError("binding self-test failed: a corrupted trace was accepted by ControllerTrace")
     return "corrupted line %d rejected at line %d" % (idx + 1, consumed + 1)
+
+
+def _selftest_read(tr, cfg, wd):
+    """Second self-test: the recorded outcome of a restart's storage read is falsified (a failed load recorded as a clean
+    one) - the controller height the real code showed afterwards (0) is then inexplicable and the trace spec must reject."""
+    lines = [x for x in open(tr).read().split("\n") if x.strip()]
+    idx = None
+    for i, ln in enumerate(lines):
+        e = json.loads(ln)
+        if e["event"] == "Restart" and e.get("rfail") and e["obs"]["hi"]["h"] >= 1 and e["obs"]["height"] == 0:
+            e["rfail"] = []
+            lines[i] = json.dumps(e)
+            idx = i
+            break
+    if idx is None:
+        return "read self-test skipped (no restart with a forced read outcome on a stored height >= 1 in this sample)"
+    p = os.path.join(wd, "trace_corrupt_read.ndjson")
+    with open(p, "w") as f:
+        f.write("\n".join(lines) + "\n")
+    accepted, consumed, nlines, _ = vlib.tlc_validate_trace("ControllerTrace", cfg, p, name="ControllerTrace-selftest-read")
+    if accepted:
+        raise vlib.MachineryError("binding self-test failed: a restart whose failed load was recorded as clean was accepted by ControllerTrace")
+    return "forged read outcome at line %d rejected at line %d" % (idx + 1, consumed + 1)
 
 
 def replay(path):
